@@ -14,15 +14,15 @@ RECURSIVE SemEq(_, _), SemLess(_, _)
 SeqEq(xs, ys) == Len(xs) = Len(ys) /\ \A i \in DOMAIN xs : SemEq(xs[i], ys[i])
 SemEq(a, b) ==
   CASE a.t = "int" -> b.t = "int" /\ a.n = b.n
-    [] a.t \in {"str", "bytes"} -> a.cs = b.cs
+    [] a.t \in {"str", "bytes"} -> b.t = a.t /\ a.cs = b.cs
     [] a.t = "none" -> b.t = "none"
     [] a.t = "some" -> b.t = "some" /\ SemEq(a.v, b.v)
-    [] a.t = "seq" -> SeqEq(a.xs, b.xs)
+    [] a.t = "seq" -> b.t = "seq" /\ SeqEq(a.xs, b.xs)
     [] a.t = "nilptr" -> b.t = "nilptr"
     [] a.t = "ptr" -> b.t = "ptr" /\ SemEq(a.v, b.v)
-    [] a.t = "map" -> a.ks = b.ks /\ SeqEq(a.vs, b.vs)
-    [] a.t = "tup" -> SeqEq(a.xs, b.xs)
-    [] a.t = "wrap" -> SemEq(a.v, b.v)
+    [] a.t = "map" -> b.t = "map" /\ a.ks = b.ks /\ SeqEq(a.vs, b.vs)
+    [] a.t = "tup" -> b.t = "tup" /\ SeqEq(a.xs, b.xs)
+    [] a.t = "wrap" -> b.t = "wrap" /\ SemEq(a.v, b.v)
 
 \* lexicographic comparison of two sequences of abstract values / of integers
 RECURSIVE LexLess(_, _, _), IntLexLess(_, _, _)
@@ -66,16 +66,16 @@ Universes == <<VInt, VStr, VOpt(VInt), VSeq(VInt), VPtr(VInt), VTup2(VInt, VStr)
                VTup2(VSeq(VInt), VOpt(VInt)), VMap(VInt), VSeq(VPtr(VInt))>>
 Ordered(i) == i # 11      \* maps have no Ord instance
 
-VARIABLES u, a, b, c
-tvars4 == <<u, a, b, c>>
-UInit == u \in DOMAIN Universes /\ a \in Universes[u] /\ b \in Universes[u] /\ c \in Universes[u]
+VARIABLES vu, va, vb, vc
+tvars4 == <<vu, va, vb, vc>>
+UInit == vu \in DOMAIN Universes /\ va \in Universes[vu] /\ vb \in Universes[vu] /\ vc \in Universes[vu]
 USpec == UInit /\ [][UNCHANGED tvars4]_tvars4
 \* C09: the meaning of Eq is an equivalence
-EqReflexive  == SemEq(a, a)
-EqSymmetric  == SemEq(a, b) = SemEq(b, a)
-EqTransitive == (SemEq(a, b) /\ SemEq(b, c)) => SemEq(a, c)
+EqReflexive  == SemEq(va, va)
+EqSymmetric  == SemEq(va, vb) = SemEq(vb, va)
+EqTransitive == (SemEq(va, vb) /\ SemEq(vb, vc)) => SemEq(va, vc)
 \* C10: the meaning of Ord is a strict total order compatible with it
-Trichotomy   == Ordered(u) => ((IF SemLess(a, b) THEN 1 ELSE 0) + (IF SemLess(b, a) THEN 1 ELSE 0) + (IF SemEq(a, b) THEN 1 ELSE 0) = 1)
-LessTransitive == Ordered(u) => ((SemLess(a, b) /\ SemLess(b, c)) => SemLess(a, c))
-LessRespectsEq == Ordered(u) => ((SemEq(a, b) /\ SemLess(b, c)) => SemLess(a, c))
+Trichotomy   == Ordered(vu) => ((IF SemLess(va, vb) THEN 1 ELSE 0) + (IF SemLess(vb, va) THEN 1 ELSE 0) + (IF SemEq(va, vb) THEN 1 ELSE 0) = 1)
+LessTransitive == Ordered(vu) => ((SemLess(va, vb) /\ SemLess(vb, vc)) => SemLess(va, vc))
+LessRespectsEq == Ordered(vu) => ((SemEq(va, vb) /\ SemLess(vb, vc)) => SemLess(va, vc))
 =============================================================================
